@@ -380,14 +380,16 @@ impl Node {
             // until none of them has delivered anything for 60 ms.
             self.barrier_no += 1;
             let tag = format!("{}", self.barrier_no);
+            // (a WebSocket session's answers and the lines pushed to it travel through the same channel of the
+            // session -- on_message answers with client.sender, which is also what watch registers -- so the barrier
+            // line works there as well; the silence rule below stays as a second line of defence)
             let mut any_ws = false;
             for (c, k) in self.conns.iter_mut() {
-                if k.is_tcp() {
-                    let got = k.barrier(&tag);
-                    if !got.is_empty() {
-                        self.net_inbox.entry(c.clone()).or_insert(vec![]).extend(got);
-                    }
-                } else {
+                let got = k.barrier(&tag);
+                if !got.is_empty() {
+                    self.net_inbox.entry(c.clone()).or_insert(vec![]).extend(got);
+                }
+                if !k.is_tcp() {
                     any_ws = true;
                 }
             }
